@@ -11,7 +11,7 @@
      - bit 47 of ref becomes the sign bit, bits 48..63 of ref are lost,
      - a version v is stored as  v mod 2^16  (versionMask & v). *)
 From Coq Require Import ZArith List String Bool Lia.
-From Verif Require Import Base.Int64 C10.Model C10.Proofs.
+From Verif Require Import Base.Int64 C10.Model C10.GenSem C10.Proofs.
 From VerifGen Require Import GenIds.
 Import ListNotations.
 Open Scope Z_scope.
@@ -73,7 +73,10 @@ Qed.
 Definition raw_feature (k : kind) (r : Z) : Z := Z.lor (kcode k * two56) (wrap64 (Z.shiftl r 16)).
 
 Lemma feature_id_raw k r : is_element k = true -> feature_id k r = raw_feature k r.
-Proof. destruct k; intros H; try discriminate H; reflexivity. Qed.
+Proof.
+  destruct k; intros H; try discriminate H; cbn [feature_id];
+    rewrite ?NodeID_FeatureID_sem, ?WayID_FeatureID_sem, ?RelationID_FeatureID_sem; reflexivity.
+Qed.
 
 Lemma raw_feature_bits k r m :
   0 <= m < 64 ->
@@ -95,7 +98,7 @@ Qed.
 
 Lemma ref_of_raw_feature k r : ObjectID_Ref (raw_feature k r) = r mod two40.
 Proof.
-  unfold ObjectID_Ref. apply Z.bits_inj'. intros n Hn.
+  rewrite ObjectID_Ref_sem. unfold ref_spec. apply Z.bits_inj'. intros n Hn.
   change c_versionBits with 16. rewrite Z.shiftr_spec by lia.
   rewrite Z.land_spec, refMask_bits by lia.
   change two40 with (2 ^ 40).
@@ -158,7 +161,8 @@ Lemma version_any f v :
   Z.land f c_versionMask = 0 ->
   ObjectID_Version (FeatureID_ElementID f v) = v mod two16.
 Proof.
-  intros Hf. unfold ObjectID_Version, FeatureID_ElementID. apply Z.bits_inj'. intros n Hn.
+  intros Hf. rewrite ObjectID_Version_sem, FeatureID_ElementID_sem. unfold version_spec, ver_spec.
+  apply Z.bits_inj'. intros n Hn.
   rewrite Z.land_spec, Z.lor_spec, Z.land_spec, versionMask_bits by lia.
   assert (Hfn : Z.testbit f n && (n <? 16) = false).
   { rewrite <- (versionMask_bits n Hn), <- Z.land_spec, Hf. apply Z.bits_0. }
@@ -183,7 +187,7 @@ Qed.
 
 Theorem feature_ref_any k r :
   is_element k = true -> FeatureID_Ref (feature_id k r) = r mod two40.
-Proof. intros Hk. rewrite (feature_id_raw k r Hk). exact (ref_of_raw_feature k r). Qed.
+Proof. intros Hk. rewrite (feature_id_raw k r Hk), feature_ref_eq. exact (ref_of_raw_feature k r). Qed.
 
 Theorem feature_type_bits_any k r :
   is_element k = true ->
@@ -198,7 +202,7 @@ Theorem element_version_any k r v :
   is_element k = true -> ElementID_Version (element_id k r v) = v mod two16.
 Proof.
   intros Hk. rewrite (element_id_of_feature k r v Hk), (feature_id_raw k r Hk).
-  change (ElementID_Version ?x) with (ObjectID_Version x).
+  rewrite element_version_eq.
   apply version_any. apply raw_feature_low_bits.
 Qed.
 
@@ -210,7 +214,7 @@ Theorem negative_ref k r :
 Proof.
   intros Hk Hr. split.
   - rewrite (feature_ref_any k r Hk). unfold two40 in *. lia.
-  - unfold FeatureID_Type. rewrite (feature_type_bits_any k r Hk).
+  - rewrite FeatureID_Type_sem. unfold feature_type_spec. rewrite (feature_type_bits_any k r Hk).
     replace ((r / two40) mod 128) with 127 by (unfold two40 in *; lia).
     destruct k; try discriminate Hk; reflexivity.
 Qed.
